@@ -557,6 +557,9 @@ impl<'a> Enc<'a> {
                     semi(out, a, n)
                 }
             }
+            // asn1rs stores an upper bound of i64::MAX as "no upper bound": (MIN..9223372036854775807) is plain unconstrained
+            // for it, which is also what X.691 gives - no deviation, no class
+            IntRoot::UpperOnly(b) if b == i64::MAX as i128 => unc(out, n),
             IntRoot::UpperOnly(b) => {
                 self.classes.insert("int-upper-only");
                 if self.dev.int_upper_only_as_zero_based {
